@@ -160,6 +160,7 @@ package domain
 //@   ensures ret(SplitString2, 0, 2) ==> result_0 == ret(SplitString2, 0, 0) && result_1 == ret(SplitString2, 0, 1)
 //@   ensures !ret(SplitString2, 0, 2) ==> result_0 == ret(SplitString2, 0, 0) && result_1 == s
 //@ func (m *MixMatcher) Add [C12]
+//@   log mixAdd
 //@   requires m != nil
 //@   modifies *
 //@   ensures calls(splitTP) == 1 && arg(splitTP, 0, 1) == s
